@@ -55,9 +55,19 @@ def run_control(c, chk):
 
 def main():
     specs = json.load(open(os.path.join(HERE, "controls", "controls.json")))
-    want = sys.argv[1:]
+    argv = sys.argv[1:]
+    as_json = "--json" in argv
+    argv = [a for a in argv if a != "--json"]
+    rules = None
+    if "--rules" in argv:
+        i = argv.index("--rules")
+        rules = set(argv[i + 1].split(","))
+        argv = argv[:i] + argv[i + 2:]
+    want = argv
     if want:
         specs = [c for c in specs if c["name"] in want]
+    if rules is not None:
+        specs = [c for c in specs if c["rule"] in rules]
     chk = load_check()
     chk.ensure_driver()
     results = []
@@ -68,6 +78,9 @@ def main():
             results = [f.result() for f in futs]
     else:
         results = [run_control(c, chk) for c in specs]
+    if as_json:
+        print(json.dumps(results))
+        return 1 if any(r["status"] in ("MISSED", "error", "FALSE-ALARM") for r in results) else 0
     bad = 0
     for r in results:
         print("%-14s %-8s %s" % (r["name"], r["status"], r.get("why") or ", ".join(r.get("keys", []))[:200]))
